@@ -25,6 +25,9 @@ def declarations(tier, seed):
     n_random = 4 if tier == "quick" else 50
     for i in range(n_random):
         ds.append(decls.random_decl(seed, i))
+    only = os.environ.get("VERIF_ATT_DECLS")      # self-test aid: restrict to some declarations (coverage floors will not be met)
+    if only:
+        ds = [d for d in ds if d["name"] in only.split(",")]
     return ds
 
 
